@@ -124,7 +124,25 @@ def _effective_points(prog, e, npar: T, world=None) -> dict:
     (coordinates instead of points) is marked as such."""
     b = dict(e.data["bound"] or {})
     tgt = e.data.get("target")
+    ALL0 = T("slice", tm.NONE, tm.NONE, tm.NONE)
+
+    def canon(t: T) -> T:
+        # (P.T)[:, :n] -> P[:n, :].T ; (P.T)[:n] restricts coordinates
+        if t is not None and t.op == "sub":
+            inner = _strip_T(t.args[0])
+            idx = t.args[1]
+            if inner is not None and idx.op == "tuple" and \
+                    len(idx.args) == 2 and idx.args[0] is ALL0 and \
+                    idx.args[1].op == "slice":
+                return tm.attr(tm.sub(inner, T("tuple", idx.args[1], ALL0)),
+                               "T")
+            if inner is not None and idx.op == "slice":
+                return T("coordinate-slice", t)
+        return t
     if tgt is None or set(b) <= {"x", "y", "with_scale"}:
+        for k in ("x", "y"):
+            if k in b:
+                b[k] = canon(b[k])
         return b
     key = (id(prog), tgt.qualname)
     if key not in _UME_SUMMARY:
